@@ -1951,3 +1951,32 @@ package mcp
 //@   requires s != nil && req != nil
 //@   assume fsRep(s.resourceTemplates) && s.opts.PageSize > 0   // server invariants: NewServer builds the sets and a positive page size; add/remove keep fsRep (their contracts)
 //@   modifies *
+
+// The requested schema of an elicitation/create request is chosen by the server: its validation runs in the client's
+// handler goroutine, so it must not panic on any decoded schema (C02: a request with an id is answered, the process
+// does not crash). Entries of properties/oneOf/anyOf may be null on the wire, i.e. nil after decoding.
+//@ func validateElicitSchema [C02]
+//@   nopanic
+//@   modifies *
+//@ func validateElicitProperty [C02]
+//@   nopanic
+//@   requires propSchema != nil
+//@   modifies *
+//@ func validateElicitStringProperty [C02]
+//@   nopanic
+//@   requires propSchema != nil
+//@   modifies *
+//@ func validateElicitNumberProperty [C02]
+//@   nopanic
+//@   requires propSchema != nil
+//@   modifies *
+//@ func validateElicitBooleanProperty [C02]
+//@   nopanic
+//@   requires propSchema != nil
+//@   modifies *
+//@ func validateElicitArrayProperty [C02]
+//@   nopanic
+//@   requires propSchema != nil
+//@   modifies *
+//@ func validateTitledEnumEntry [C02]
+//@   nopanic
